@@ -820,4 +820,19 @@ func gen(r *h.Rand, tier string, emit func([]string)) {
 	}
 }
 
-func main() { h.Main(h.Harness{Gen: gen, NewCase: newRunner}) }
+// genBalanced emits the generator's cases in a strided order, so that the contiguous chunks the
+// runner hands to parallel processes each get a mix of cheap and expensive cases.
+func genBalanced(r *h.Rand, tier string, emit func([]string)) {
+	var all [][]string
+	gen(r, tier, func(ops []string) { all = append(all, ops) })
+	const stride = 16
+	for i := 0; i < stride; i++ {
+		for j := i; j < len(all); j += stride {
+			emit(all[j])
+		}
+	}
+}
+
+func main() {
+	h.Main(h.Harness{Gen: genBalanced, NewCase: newRunner, OpTimeout: 5 * time.Minute})
+}
